@@ -1,8 +1,8 @@
 //! SemanticString types of iceoryx2-bb-system-types: generic trait operations against the
 //! byte-vector model with `Type::new(bytes).is_ok()` as the validity oracle.
-use checks_bb::models::semantic::*;
-use checks_bb::models::string::{Needle, SIG_EMPTY_RANGE_WHEN_FULL, SIG_REMOVE_AT_LEN};
-use checks_bb::models::{Known, op_sequences};
+use crate::models::semantic::*;
+use crate::models::string::{Needle, SIG_EMPTY_RANGE_WHEN_FULL, SIG_REMOVE_AT_LEN};
+use crate::models::{Known, op_sequences};
 use iceoryx2_bb_container::semantic_string::SemanticString;
 use iceoryx2_bb_system_types::base64url::Base64Url;
 use iceoryx2_bb_system_types::file_name::{FileName, RestrictedFileName};
@@ -34,7 +34,7 @@ fn run_typed<const C: usize, S: SemanticString<C>>(inits: &[&[u8]], c: &SemCase,
     run_semantic_ops::<C, S>(&mut s, init, &c.ops, &mut nohook, obs, known)
 }
 
-fn run_case(c: &SemCase, obs: &mut Obs, known: &Known) -> Result<(), Failure> {
+pub fn run_case(c: &SemCase, obs: &mut Obs, known: &Known) -> Result<(), Failure> {
     known.begin_case();
     let r = match c.ty % NTYPES {
         0 => run_typed::<{ FileName::max_len() }, FileName>(&[b"a", b"file.txt", b"..a"], c, obs, known),
